@@ -46,6 +46,12 @@ def predict_in_pieces(which, n, seed, dtype):
         g = vd.Chain([("mean", vd.BlockReduce(np.mean, spacing=4.0)), ("trend", vd.Trend(2)), ("knn", vd.KNeighbors(k=3)), ("lin", vd.Trend(1))]).fit((fe, fn), fd)
     elif which == "chain-f32data":      # single-precision data, a first step that hands its data's type on (nearest neighbour), then double-precision steps
         g = vd.Chain([("knn", vd.KNeighbors(k=1)), ("trend", vd.Trend(2)), ("spline", vd.Spline(damping=1e-6))]).fit((fe, fn), (1000.0 + 37.0 * fd).astype("float32"))
+    elif which == "spline-many-forces":      # hundreds of forces set by hand (a model read from a file), many query points
+        g = vd.Spline(mindist=0.5)
+        m = 311
+        g.force_coords_ = (rs.uniform(0, 43, m), rs.uniform(-12, 22, m))
+        g.force_ = rs.normal(size=m)
+        g.region_ = (0.0, 43.0, -12.0, 22.0)
     elif which == "vector":
         g = vd.Vector([vd.Trend(1), vd.Spline(damping=1e-4)]).fit((fe, fn), (fd, fd * 0.5 - 1.0))
     elif which == "vs2d":
@@ -289,5 +295,110 @@ def vector_components(seed):
     return ""
 
 
-FUNCS = {"knn_big_ints": knn_big_ints, "blocksum_big_ints": blocksum_big_ints, "vector_components": vector_components, "cv_layout": cv_layout, "table_independent": table_independent, "predict_in_pieces": predict_in_pieces, "grid_in_pieces": grid_in_pieces, "block_labels": block_labels, "windows": windows,
+def compiled_loops(seed):
+    """The explicit loops behind engine="numba" (run here as plain Python when numba is absent: the decorator keeps the source) build the same
+    Jacobians and predictions as the array code, also when the forces are fewer or more than the data points."""
+    import types
+
+    import verde.spline as sp
+    import verde.vector as vv
+
+    def src(f):
+        return getattr(f, "__wrapped__", getattr(f, "py_func", None))
+    saved = []
+
+    def patch(mod, name, value):
+        saved.append((mod, name, getattr(mod, name, None), hasattr(mod, name)))
+        setattr(mod, name, value)
+    try:
+        for mod, names in ((sp, ("greens_func_jit",)), (vv, ("GREENS_FUNC_2D_JIT",))):
+            for nm in names:
+                if src(getattr(mod, nm)) is None:
+                    return ""
+                patch(mod, nm, src(getattr(mod, nm)))
+            if not hasattr(mod, "numba") or getattr(mod, "numba") is None:
+                patch(mod, "numba", types.SimpleNamespace(prange=range))
+        rs = np.random.RandomState(seed)
+        for npts, nf in ((7, 4), (5, 9), (6, 6)):
+            e, no = rs.uniform(0, 20, npts), rs.uniform(0, 10, npts)
+            fe, fn = rs.uniform(0, 20, nf), rs.uniform(0, 10, nf)
+            for md in (0.0, 1.5):
+                ref = vd.Spline(mindist=md, engine="numpy").jacobian((e, no), (fe, fn))
+                got = src(sp.jacobian_numba)(e, no, fe, fn, md, np.full((npts, nf), np.nan))
+                if not np.allclose(got, ref, rtol=1e-11, atol=1e-11):
+                    return f"spline.jacobian_numba ({npts} points, {nf} forces) differs from the array Jacobian"
+                forces = rs.normal(size=nf)
+                if not np.allclose(src(sp.predict_numba)(e, no, fe, fn, md, forces, np.full(npts, np.nan)), ref @ forces, rtol=1e-10, atol=1e-10):
+                    return f"spline.predict_numba ({npts} points, {nf} forces) differs from Jacobian times forces"
+                for nu in (0.5, -1.0, 0.0):
+                    vref = vd.VectorSpline2D(poisson=nu, mindist=md, engine="numpy").jacobian((e, no), (fe, fn))
+                    vgot = src(vv.jacobian_2d_numba)(e, no, fe, fn, md, nu, np.full((2 * npts, 2 * nf), np.nan))
+                    if vgot.shape != vref.shape or not np.allclose(vgot, vref, rtol=1e-11, atol=1e-11, equal_nan=False):
+                        return f"vector.jacobian_2d_numba ({npts} points, {nf} forces, poisson {nu}) differs from the array Jacobian"
+                    f2 = rs.normal(size=2 * nf)
+                    pe, pn = src(vv.predict_2d_numba)(e, no, fe, fn, md, nu, f2, np.full(npts, np.nan), np.full(npts, np.nan))
+                    if not np.allclose(np.concatenate([pe, pn]), vref @ f2, rtol=1e-10, atol=1e-10):
+                        return f"vector.predict_2d_numba ({npts} points, {nf} forces, poisson {nu}) differs from Jacobian times forces"
+    finally:
+        for mod, name, val, had in reversed(saved):
+            if had:
+                setattr(mod, name, val)
+            else:
+                delattr(mod, name)
+    return ""
+
+
+def jacobian_in_pieces(n, nf, seed):
+    """Spline.jacobian / a Spline fitted with separate force positions on a long table: rows of the Jacobian are the rows of the Jacobian of
+    the pieces; the fitted forces solve the least-squares problem assembled from those pieces."""
+    e, no, d, rs = _cloud(n, seed)
+    side = int(round(nf ** 0.5))
+    fc = tuple(np.ravel(c) for c in vd.grid_coordinates((0, 43, -12, 22), shape=(side, side)))
+    jac = vd.Spline(mindist=1.0).jacobian((e, no), fc)
+    ref = np.vstack([vd.Spline(mindist=1.0).jacobian((e[a:b], no[a:b]), fc) for a, b in _pieces(n, 11)])
+    if jac.shape != ref.shape or not np.allclose(jac, ref, rtol=1e-12, atol=1e-12):
+        bad = np.where(~np.isclose(jac, ref, rtol=1e-12, atol=1e-12).all(axis=1))[0]
+        return f"Spline.jacobian for {n} points x {fc[0].size} forces: {bad.size} rows differ from the Jacobian of the same points taken in pieces, first row {bad[0] if bad.size else '?'}"
+    g = vd.Spline(mindist=1.0, damping=1e-3, force_coords=fc).fit((e, no), d)
+    pred = g.predict((e[::97], no[::97]))
+    # independent: normal equations of the scaled, damped problem are not needed - the optimum's residual is orthogonal to the columns up to damping;
+    # here simply: predictions equal (pieces Jacobian) @ force_
+    if not np.allclose(pred, ref[::97] @ g.force_, rtol=1e-9, atol=1e-9):
+        return f"Spline fitted to {n} points with {fc[0].size} forces: predict differs from the Jacobian of the points times force_"
+    from sklearn.preprocessing import StandardScaler
+    sc = StandardScaler(copy=True, with_mean=False, with_std=True).fit(ref)
+    A = sc.transform(ref)
+    hess = A.T @ A + 1e-3 * np.eye(A.shape[1])
+    grad = A.T @ d
+    p_ref = np.linalg.solve(hess, grad) / sc.scale_
+    r_fit, r_ref = d - ref @ g.force_, d - ref @ p_ref
+    if not np.isclose(np.linalg.norm(r_fit), np.linalg.norm(r_ref), rtol=1e-6):
+        return (f"Spline fitted to {n} points with {fc[0].size} forces: misfit {np.linalg.norm(r_fit)} is not that of the damped least-squares "
+                f"solution assembled from the pieces ({np.linalg.norm(r_ref)})")
+    return ""
+
+
+def vector_mixed_dtype(seed):
+    """VectorSpline2D with one component handed over as integers and the other as fractions: same result as all-float input."""
+    rs = np.random.RandomState(seed)
+    e, no = rs.uniform(0, 20, 12), rs.uniform(0, 10, 12)
+    de = rs.randint(-20, 20, 12).astype(float)
+    dn = rs.uniform(-3, 3, 12)
+    w = rs.randint(1, 5, 12).astype(float)
+    q = (rs.uniform(0, 20, 7), rs.uniform(0, 10, 7))
+    mk = lambda: vd.VectorSpline2D(damping=1e-2, mindist=1.0)  # noqa: E731
+    ref = mk().fit((e, no), (de, dn), (w, w * 0.5)).predict(q)
+    for name, data, wts in (("east component int64", (de.astype("int64"), dn), (w, w * 0.5)), ("east weights int32", (de, dn), (w.astype("int32"), w * 0.5)),
+                            ("north component int64 (fractional east)", (dn, de.astype("int64")), (w * 0.5, w))):
+        if name.startswith("north"):
+            r2 = mk().fit((e, no), (dn, de), (w * 0.5, w)).predict(q)
+        else:
+            r2 = ref
+        got = mk().fit((e, no), data, wts).predict(q)
+        if not all(np.allclose(a, b, rtol=1e-9, atol=1e-9) for a, b in zip(got, r2)):
+            return f"VectorSpline2D with the {name}: predictions differ from the all-float fit"
+    return ""
+
+
+FUNCS = {"compiled_loops": compiled_loops, "jacobian_in_pieces": jacobian_in_pieces, "vector_mixed_dtype": vector_mixed_dtype, "knn_big_ints": knn_big_ints, "blocksum_big_ints": blocksum_big_ints, "vector_components": vector_components, "cv_layout": cv_layout, "table_independent": table_independent, "predict_in_pieces": predict_in_pieces, "grid_in_pieces": grid_in_pieces, "block_labels": block_labels, "windows": windows,
          "blockmean_by_hand": blockmean_by_hand, "kfold_blocks": kfold_blocks, "big_table": big_table}
